@@ -4,6 +4,8 @@
 package main
 
 import (
+	"sort"
+	"golang.org/x/text/language"
 	"bytes"
 	"fmt"
 	"strings"
@@ -258,6 +260,35 @@ func actsAlike(c *wk.Case, what string, a, b *gtab.Info, gd *gdef.Table, n int) 
 	if len(a.LookupList) != len(b.LookupList) {
 		c.Fail("lossless", what+"/lookup-count", "constructed font: %d %s lookups were written, %d came back", len(a.LookupList), what, len(b.LookupList))
 	}
+	// feature selection: for every language system of the written table,
+	// the same lookups must be selected in the re-read table (script and
+	// feature lists are compared by what they select, because language tags
+	// are normalised by the encoder)
+	if b != nil {
+		var tags []language.Tag
+		for tag := range a.ScriptList {
+			tags = append(tags, tag)
+		}
+		sort.Slice(tags, func(i, j int) bool { return tags[i].String() < tags[j].String() })
+		allOn := map[string]bool{}
+		for _, f := range a.FeatureList {
+			allOn[f.Tag] = true
+		}
+		for _, tag := range tags {
+			for _, sw := range []map[string]bool{allOn, {}} {
+				var want, got []gtab.LookupIndex
+				p1 := c.Guard(func() { want = a.FindLookups(tag, sw) })
+				p2 := c.Guard(func() { got = b.FindLookups(tag, sw) })
+				if p1 != nil || p2 != nil {
+					continue
+				}
+				c.Count("feature_selection_comparisons", 1)
+				if d := simgen.DeepDiff(want, got, 0, false); d != "" {
+					c.Fail("lossless", what+"/feature-selection", "constructed font: for language %v (all features %v) the %s table selects lookups %v, after Write/Read %v", tag, len(sw) > 0, what, want, got)
+				}
+			}
+		}
+	}
 	hot := simgen.CoveredGlyphs(a)
 	t := c.T
 	// compare with the normal form of what was written (one ValueFormat2 per
@@ -395,6 +426,12 @@ func lossless(c *wk.Case, f *sfnt.Font, b []byte) {
 		}
 		if d := simgen.DeepDiff(fo.Tables, goo.Tables, 0, false); d != "" {
 			fail("TrueTypeTables", "%s", d)
+		}
+		if len(fo.Names) == len(fo.Glyphs) && len(fo.Names) > 0 {
+			// a complete list of glyph names comes back as it was
+			if d := simgen.DeepDiff(fo.Names, goo.Names, 0, false); d != "" {
+				fail("TrueTypeGlyphNames", "%s (%d names written, %d read)", d, len(fo.Names), len(goo.Names))
+			}
 		}
 	}
 	if fo, ok := f.Outlines.(*cff.Outlines); ok {
